@@ -540,3 +540,69 @@ theorem insertAfter_spec {f : Forest} {ref c : Nat} (inv : f.Inv) (norm : f.Norm
           · simp [hb]) hsame hocc
 
 end XotModel
+
+namespace XotModel
+open HTree Spec
+
+/-- The content of the specification of a move does not depend on the survivor rule (any geometry). -/
+theorem specMove_content_keep {f : Forest} {c : Nat} {t : HTree} {q : Nat} {vq : Value} {Lq : List HTree}
+    (inv : f.Inv) (norm : f.Normal) (hgc : f.get? c = some t) (sq : SiteAt f q vq Lq) (hqt : q ∉ handles t)
+    (hvq : vq.isText = false) (dest : Dest) (hsite : dest.site f = some q) :
+    (specMove (Keep.resident c) dest c f).content = (specMove Keep.earlier dest c f).content := by
+  by_cases hfar : f.parent? c ≠ some q
+  · exact specMove_content_keep_far' inv norm hgc sq hqt hvq hfar dest hsite
+  have hpar : f.parent? c = some q := Classical.not_not.1 hfar
+  cases hocc : dest.occupiedBy f c with
+  | true => unfold specMove; rw [hocc]; rfl
+  | false =>
+    have nd := inv.nodup
+    cases hctx : f.ctx? c with
+    | none => rw [Forest.parent?_of_no_ctx hctx] at hpar; cases hpar
+    | some cx =>
+      obtain ⟨e0, vo, so⟩ := SiteAt.of_ctx nd hctx
+      have hself : cx.self = t := by
+        have := Forest.get?_of_ctx nd hctx
+        rw [hgc] at this
+        exact (Option.some.inj this).symm
+      obtain ⟨po, l, k, r⟩ := cx
+      simp only at e0 so hself
+      subst hself
+      subst e0
+      have hpo : po = q := by
+        rw [Forest.parent?_of_ctx hctx] at hpar
+        exact Option.some.inj hpar
+      subst hpo
+      have ev : vo = vq := by
+        have := so.kids
+        rw [sq.kids] at this
+        have := Option.some.inj this
+        injection this with _ e2 _
+        exact e2.symm
+      subst ev
+      have hleafL := so.leaf inv.valid
+      exact (far_same (keep := Keep.resident k.handle) so).content_keep (far_same (keep := Keep.earlier) so)
+        (fun k' hk' => hleafL k' (by
+          cases List.mem_append.1 hk' with
+          | inl h => exact List.mem_append_left _ h
+          | inr h => exact List.mem_append_right _ (List.mem_cons_of_mem _ h)))
+        (leaf_of_text inv.valid hgc) dest hocc hsite
+
+theorem insertAfter_content {f : Forest} {ref c : Nat} (inv : f.Inv) (norm : f.Normal)
+    (hok : (f.insertAfter ref c).2 = .ok) :
+    (f.insertAfter ref c).1.content = (specMove Keep.earlier (.after ref) c f).content := by
+  rw [insertAfter_spec inv norm hok]
+  have nd := inv.nodup
+  have hsc : f.structureCheck (f.parent? ref) c = true := by
+    cases h : f.structureCheck (f.parent? ref) c with
+    | true => rfl
+    | false => rw [insertAfter_unfold] at hok; simp [h] at hok
+  have hsr : f.siblingReferenceCheck ref c = true := by
+    cases h : f.siblingReferenceCheck ref c with
+    | true => rfl
+    | false => rw [insertAfter_unfold] at hok; simp [hsc, h] at hok
+  obtain ⟨q, vq, A, kr, B, t, sq, ekr, hkrn, hrc, hgc, hqt, hnorm, hndoc, hvq⟩ := sibling_checks_unpack nd hsc hsr
+  subst ekr
+  exact specMove_content_keep inv norm hgc sq hqt hvq _ (by
+    simp only [Dest.site]; exact Forest.parent?_of_ctx sq.ctx)
+
+end XotModel
